@@ -1,8 +1,13 @@
 -- Root of the `YawVerif` library: everything `lake build YawVerif` (setup) must compile.
 import YawVerif.Model.Proto
 import YawVerif.Drv.Common
+import YawVerif.Props.C01
 import YawVerif.Props.C03
 import YawVerif.Props.C04
 import YawVerif.Props.C10
 import YawVerif.Props.C17
 import YawVerif.Drv.Cont
+import YawVerif.Drv.Spec
+import YawVerif.Drv.GenResample
+import YawVerif.Drv.GenBinning
+import YawVerif.Drv.GenPairCount
